@@ -23,7 +23,8 @@ ASSUMPTIONS = [
     "jit vs eager and vmap vs per-sample are compared with relative tolerance 1e-9 of max(1,|field|): XLA may fuse / "
     "reassociate floating-point operations differently (x64); integer leaves must be equal; for models WITH constraint rows the "
     "leaves downstream of the iterative constraint solver (qacc, qfrc_constraint, efc_force, cacc, cfrc_int/ext, sensordata, "
-    "qacc_warmstart, and the next state of step) are compared with 1e-6: the same CG/Newton iteration with differently fused "
+    "qacc_warmstart, and the next state of step) are compared with max(1e-6, 100*sqrt(opt.tolerance)) relative to the leaf scale "
+    "(the solvers stop when the scaled improvement / gradient is below opt.tolerance, which bounds the solution to ~sqrt of it): the same CG/Newton iteration with differently fused "
     "arithmetic agrees only to the conditioning of the iteration (witness 2e-8 on exactly these leaves, < 1e-12 on all others)",
     "get_data: qLD/qLDiagInv are recomputed by mj_factorM (documented in io.py: 'recalculate qLD and qLDiagInv as MJX and "
     "MuJoCo have different representations'), compared with 1e-9; arena-only fields that MJX's Data does not carry are not "
@@ -272,10 +273,10 @@ def _fn(R, name):
 SOLVER_LEAVES = (".qacc", ".qfrc_constraint", ".sensordata", ".qacc_warmstart", "._impl.efc_force", "._impl.cacc",
                  "._impl.cfrc_int", "._impl.cfrc_ext")
 STEP_LEAVES = (".qpos", ".qvel", ".act")
-TOL_SOLVER_LEAVES = 1e-6
+TOL_SOLVER_LEAVES = 1e-6     # floor; per model: max(1e-6, 100*sqrt(opt.tolerance)), see _cmp_trees(solver_tol=...)
 
 
-def _cmp_trees(R, P, a, b, tol, sig, base, solver_fn=None, **kw):
+def _cmp_trees(R, P, a, b, tol, sig, base, solver_fn=None, solver_tol=TOL_SOLVER_LEAVES, **kw):
     la, lb = _leaves(R, a), _leaves(R, b)
     if set(la) != set(lb):
         _viol(P, sig + ":pytree-structure", base, **kw)
@@ -294,7 +295,7 @@ def _cmp_trees(R, P, a, b, tol, sig, base, solver_fn=None, **kw):
         e = _rel(x, y)
         t = tol
         if solver_fn is not None and (k in SOLVER_LEAVES or (solver_fn == "step" and k in STEP_LEAVES)):
-            t = max(tol, TOL_SOLVER_LEAVES)
+            t = max(tol, solver_tol)
             P.note_max("relerr_solver_leaves_" + sig.split(":")[0], e if np.isfinite(e) else 1e300)
         else:
             worst = max(worst, e if np.isfinite(e) else 1e300)
@@ -388,7 +389,8 @@ def check_model(R, xml, tags, case, P):
             if "jit" in case["parts"]:
                 eager = raw(mx, dxs[0])
                 _cmp_trees(R, P, per[0], eager, 1e-9, "jit-differs-from-eager[%s]" % fname, base, fn=fname,
-                           solver_fn=fname if (fname != "kin" and int(per[0]._impl.nefc) > 0) else None)
+                           solver_fn=fname if (fname != "kin" and int(per[0]._impl.nefc) > 0) else None,
+                           solver_tol=max(TOL_SOLVER_LEAVES, 100 * float(m.opt.tolerance) ** 0.5))
                 P.case("jit|%s|%s|%s" % (fname, prof, integ), nontrivial=True)
             if "vmap" in case["parts"]:
                 B = case["batch"]
@@ -398,7 +400,8 @@ def check_model(R, xml, tags, case, P):
                     oi = jax.tree.map(lambda x, i=i: x[i], out)
                     _cmp_trees(R, P, oi, per[i], 1e-9, "vmap-differs-from-per-sample[%s]" % fname, base, fn=fname,
                                batch=B, index=i,
-                               solver_fn=fname if (fname != "kin" and int(per[i]._impl.nefc) > 0) else None)
+                               solver_fn=fname if (fname != "kin" and int(per[i]._impl.nefc) > 0) else None,
+                               solver_tol=max(TOL_SOLVER_LEAVES, 100 * float(m.opt.tolerance) ** 0.5))
                 P.case("vmap|%s|B%d|%s|%s" % (fname, B, prof, integ), nontrivial=True)
                 P.count("vmap_samples_compared", B)
 
